@@ -109,8 +109,13 @@ func(_aes_cbc_dec_128_sse)
 	endbranch
 	FUNC_SAVE
 
+	; nothing to decrypt: AES_CBC_DEC processes at least one block
+	test	arg5, arg5
+	jz	.done
+
         AES_CBC_DEC arg1, arg2, arg3, arg4, arg5, r10, 9
 
+.done:
 	FUNC_RESTORE
 	ret
 
